@@ -11,33 +11,33 @@ import (
 
 // Contract is one "//@ func" block of /repo/contracts_verif.go.
 type Contract struct {
-	Name     string
-	Props    []string
-	Requires []*Clause
-	Ensures  []*Clause
-	LoopInvs map[int][]*Clause // loop ordinal -> invariants
-	Asserts  []*AnchoredAssert
-	Modifies []string // raw targets
-	HasModifies bool
-	Ghosts   []GhostParam // universally quantified ghost inputs
-	Safety   bool         // generate no-panic obligations
-	Pure     bool
-	Extern   bool   // assumed contract (dependency / interface method)
-	Trusted  string // reason, for extern
-	MayPanic bool
-	Line     int
-	Lets     []*LetClause
-	NoInline bool
-	Appends  []*Clause // slices whose spare capacity this function is declared to own
-	GhostArgs []*GhostArg
-	SumNonneg bool // opt-in: the non-negativity lemma of folds
-	SumCount  bool // opt-in: the counting lemmas of folds (one-point change, all zeros, all ones)
-	HeapFacts bool // opt-in: quantified well-typed-heap axioms and operand-side append facts
+	Name          string
+	Props         []string
+	Requires      []*Clause
+	Ensures       []*Clause
+	LoopInvs      map[int][]*Clause // loop ordinal -> invariants
+	Asserts       []*AnchoredAssert
+	Modifies      []string // raw targets
+	HasModifies   bool
+	Ghosts        []GhostParam // universally quantified ghost inputs
+	Safety        bool         // generate no-panic obligations
+	Pure          bool
+	Extern        bool   // assumed contract (dependency / interface method)
+	Trusted       string // reason, for extern
+	MayPanic      bool
+	Line          int
+	Lets          []*LetClause
+	NoInline      bool
+	Appends       []*Clause // slices whose spare capacity this function is declared to own
+	GhostArgs     []*GhostArg
+	SumNonneg     bool     // opt-in: the non-negativity lemma of folds
+	SumCount      bool     // opt-in: the counting lemmas of folds (one-point change, all zeros, all ones)
+	HeapFacts     bool     // opt-in: quantified well-typed-heap axioms and operand-side append facts
 	HeapFactTypes []string // optional: only the heaps of these types get the axioms
-	Entry    []*EntryGhost
-	Exit     []*EntryGhost
-	Assumed  string
-	AllocLimit *Expr
+	Entry         []*EntryGhost
+	Exit          []*EntryGhost
+	Assumed       string
+	AllocLimit    *Expr
 }
 
 type GhostParam struct {
@@ -70,7 +70,8 @@ type AnchoredAssert struct {
 	Callee string
 	N      int
 	Clause *Clause
-	Assume bool // never true: there is no assume in the language
+	Assume bool   // never true: there is no assume in the language
+	Bump   string // ghost counter incremented when the anchored call executes (no clause)
 }
 
 // Pred is a non-recursive spec macro.
@@ -97,14 +98,26 @@ type SpecFun struct {
 }
 
 type Contracts struct {
-	Funcs  map[string]*Contract
-	Order  []string
-	Preds  map[string]*Pred
-	Ghosts map[string]*GhostVar
+	Funcs      map[string]*Contract
+	Order      []string
+	Preds      map[string]*Pred
+	Ghosts     map[string]*GhostVar
 	GhostOrder []string
-	SpecFuns map[string]*SpecFun
-	File   string
-	Globals []*Clause
+	SpecFuns   map[string]*SpecFun
+	File       string
+	Globals    []*Clause
+	PlainCodec []PlainCodec // plaincodec [Cxx] T ...: types that must not declare their own JSON / text codec
+}
+
+// PlainCodec: a structural obligation, decided from the type information on
+// every run — the named types (and pointers to them) declare none of
+// MarshalJSON / UnmarshalJSON / MarshalText / UnmarshalText, so encoding/json
+// treats them field by field (the stated assumption behind "round-trips through
+// JSON": a custom codec on one of them would change what a round trip preserves).
+type PlainCodec struct {
+	Props []string
+	Types []string
+	Line  int
 }
 
 func contractsPath() string {
@@ -115,7 +128,7 @@ var clauseKeywords = map[string]bool{
 	"func": true, "extern": true, "props": true, "requires": true, "ensures": true,
 	"loop": true, "modifies": true, "ghost": true, "safety": true, "pure": true,
 	"pred": true, "ghostvar": true, "at": true, "trusted": true, "may_panic": true,
-	"let": true, "specfun": true, "axiom": true, "noinline": true, "sumnonneg": true, "sumcount": true, "heapfacts": true, "appends": true, "end": true,
+	"let": true, "specfun": true, "axiom": true, "noinline": true, "sumnonneg": true, "sumcount": true, "plaincodec": true, "heapfacts": true, "appends": true, "end": true,
 	"entry": true, "modset": true, "exit": true, "global": true, "assumed": true, "alloc_limit": true,
 }
 
@@ -304,6 +317,19 @@ func parseContracts(path string) (*Contracts, error) {
 				}
 			}
 			modsets[strings.TrimSpace(r.text[:eq])] = ts
+		case "plaincodec":
+			txt := strings.TrimSpace(r.text)
+			pc := PlainCodec{Line: r.line}
+			if strings.HasPrefix(txt, "[") {
+				if j := strings.Index(txt, "]"); j > 0 {
+					for _, p := range strings.Split(txt[1:j], ",") {
+						pc.Props = append(pc.Props, strings.TrimSpace(p))
+					}
+					txt = txt[j+1:]
+				}
+			}
+			pc.Types = strings.Fields(txt)
+			cs.PlainCodec = append(cs.PlainCodec, pc)
 		case "ghostvar":
 			fs := strings.Fields(r.text)
 			if len(fs) != 2 {
@@ -493,6 +519,19 @@ func parseContracts(path string) (*Contracts, error) {
 						return nil, err
 					}
 					cur.GhostArgs = append(cur.GhostArgs, &GhostArg{Callee: callee, N: n, Name: strings.TrimSpace(eq[0]), Clause: cl})
+					continue
+				}
+				if len(fs) == 4 && fs[0] == "call" && fs[2] == "bump" {
+					// at call <callee>#<n> bump <ghost counter>: the counter goes up by one
+					// each time this call is executed (an event count for calls that have no
+					// contract of their own to carry it: a function value, a library call)
+					callee := fs[1]
+					n := 0
+					if i := strings.LastIndex(callee, "#"); i >= 0 {
+						n, _ = strconv.Atoi(callee[i+1:])
+						callee = callee[:i]
+					}
+					cur.Asserts = append(cur.Asserts, &AnchoredAssert{Kind: "call", Callee: callee, N: n, Bump: strings.TrimSpace(fs[3])})
 					continue
 				}
 				if len(fs) < 4 || (fs[0] != "call" && fs[0] != "select") || fs[2] != "assert" {
